@@ -70,6 +70,8 @@ Record ctx_table := {
   ct_valid_all : bexp;                           (* register_is_valid, validity All (the `else` branch) *)
   ct_valid_default : bexp;                       (* register_is_valid, Some(which): the `_` arm / the trait default's Some branch *)
   ct_get_cond : bexp;                            (* get_register: the condition under which it reads *)
+  ct_get_val : aexp;                             (* get_register: what it returns inside Some(..), over [AVar v_ga] = `self.get_register_always(reg)` *)
+  ct_md_get_val : aexp;                          (* MinidumpContext::get_register: likewise, over [AVar v_mga] = `self.get_register_always(reg)` (u64) *)
   (* format_register: format!("<prefix>{:[0]1$x}", get_register_always(reg), size_of::<Register>() * <mul>) *)
   ct_fmt_prefix : name; ct_fmt_zero : bool; ct_fmt_mul : Z;
   ct_sp_name : name;                           (* stack_pointer_register_name() *)
